@@ -1,4 +1,5 @@
 import RagcModel.Lemmas.Pipeline
+import RagcModel.Gen.Tables
 /-!
 C04 — archive bytes do not depend on threads or timing: the *batches* that worker 0 classifies are
 the same, as sets, in every execution of the pipeline.
@@ -32,6 +33,39 @@ theorem prioSep_spec (prog : List Instr) :
 
 example : ¬ PrioSep [.push (.contig 0 5 1 1 0), .push (.token 0 7 1)] := by decide
 example : PrioSep [.push (.contig 0 5 1 1 0), .waitEmpty, .push (.token 0 7 1)] := by decide
+
+/-! ### `ContigTask::cmp` as translated from the source -/
+
+/-- The value of the struct field `name` of `ContigTask` in the model's `Item`. -/
+def fieldOf (name : String) (x : Item) : Option Int :=
+  if name = "sample_priority" then some x.prio
+  else if name = "cost" then some (x.cost : Int)
+  else if name = "sequence" then some (x.seq : Int)
+  else none
+
+/-- `a < b` in the lexicographic chain of comparisons `keys` (`(field, reversed)`, as
+`tools/gen_tables.py` reads them from `impl Ord for ContigTask`): `self.f.cmp(&other.f)` for a plain
+key, `other.f.cmp(&self.f)` for a reversed one, `then_with` / `match … Equal =>` between them. A field
+the model does not know makes the relation `False`, which `taskCmp_translated` would not survive. -/
+def chainLt : List (String × Bool) → Item → Item → Prop
+  | [], _, _ => False
+  | (f, rev) :: rest, a, b =>
+    match fieldOf f a, fieldOf f b with
+    | some va, some vb =>
+      (if rev then vb < va else va < vb) ∨ (va = vb ∧ chainLt rest a b)
+    | _, _ => False
+
+/-- The comparison chain that the translator extracts from `/repo`'s `impl Ord for ContigTask` on
+this run is the one the pipeline model's `taskLt` uses. -/
+theorem taskCmpKeys_pinned :
+    Ragc.Gen.taskCmpKeys = [("sample_priority", false), ("cost", false), ("sequence", true)] := rfl
+
+/-- … and, read as a lexicographic order, it IS `taskLt`, for all items. -/
+theorem taskCmp_translated (a b : Item) : chainLt Ragc.Gen.taskCmpKeys a b ↔ taskLt a b := by
+  rw [taskCmpKeys_pinned]
+  simp only [chainLt, fieldOf, taskLt]
+  simp
+  omega
 
 /-! ### What a pull returns -/
 
